@@ -184,6 +184,8 @@ def run_case(ctx, case):
     if rng.random() < 0.7:
         hist = HistoryObserver(d); subs.append(hist); labels[id(hist)] = "HIST"
     model_hist = []   # dispatches since last reset while hist subscribed... (hist subscribed from start)
+    parked = None     # (history observer that was unsubscribed, what it had recorded by then)
+    hist_resubscribed = False
     max_rec = 0
     disturb = 0
     steps = 0
@@ -191,6 +193,21 @@ def run_case(ctx, case):
         steps += 1
         ev = rng.random()
         recs = [s for s in subs if isinstance(s, Recorder)]
+        if parked is not None and not any(isinstance(x, HistoryObserver) for x in subs) \
+                and rng.random() < 0.35:
+            # the history observer that left comes back (dispatcher.subscribe by hand): nothing
+            # reached it meanwhile, and from now on it records every dispatch again
+            ob, kept = parked
+            parked = None
+            got = [so.operation.operation_id for so in ob.history]
+            if got != kept:
+                ctx.violation("c10_unsubscribed_observer_was_notified",
+                              {"observer": "HistoryObserver", "records_when_it_left": kept,
+                               "records_now": got, "script": script})
+            d.subscribe(ob); subs.append(ob)
+            hist, model_hist, hist_resubscribed = ob, list(kept), True
+            script.append(("resubscribe_history_observer",))
+            ctx.count("history_observer_resubscribed")
         if ev < 0.10 and len(recs) < 6:
             add_recorder()
         elif ev < 0.18 and recs:
@@ -200,6 +217,8 @@ def run_case(ctx, case):
             ob = rng.choice(pool)
             d.unsubscribe(ob); subs.remove(ob)
             if ob is hist:
+                if model_hist is not None:
+                    parked = (hist, list(model_hist))
                 hist, model_hist = None, None
                 ctx.count("history_observer_unsubscribed")
             script.append(("unsub", labels[id(ob)])); ctx.count("unsubscribes"); disturb += 1
@@ -430,7 +449,7 @@ def run_case(ctx, case):
             if hist is not None and hist in subs and model_hist is not None:
                 ctx.count("history_observer_checks")
                 got = [so.operation.operation_id for so in hist.history]
-                same_objs = all(
+                same_objs = hist_resubscribed or all(
                     any(so is x for x in d.schedule.schedule[so.machine_id]) for so in hist.history)
                 if got != model_hist or not same_objs:
                     ctx.violation("c10_history_observer_record_differs",
